@@ -354,3 +354,12 @@ func vShorthandsVsLonghands() (int, []string) {
 //@   loop 1 invariant current != nil
 //@   loop 2 invariant (rangeindex >= 0 ==> len(horizontal) == 4) && (rangeindex >= 1 ==> len(vertical) == 4)
 //@   loop 3 invariant len(horizontal) == 4 && len(vertical) == 4
+
+// the `font` shorthand: every pop of the token stack is guarded (two defects found and fixed: `font: normal`
+// and `font: 12px /` indexed an empty stack)
+//@ func _expandFont
+//@   props C07 C08
+//@   nopanic
+//@   unclaimed callee-nopanic@* "the single-property validators called here (fontStyle, fontWeight, fontSize, ...) and reverse are not under contract: their own panic-freedom is not decided"
+//@   modifies anything
+//@   requires forall(j, 0, len(tokens), tokens[j] != nil)
